@@ -50,6 +50,9 @@ type Program struct {
 	Seed  uint64
 	Cfg   Config
 	Steps []Step
+	// RaceReopen: reopen without first waiting for the closed instance's
+	// asynchronous file removals (timing dependent by design).
+	RaceReopen bool `json:",omitempty"`
 }
 
 // Summary renders the program compactly.
@@ -135,6 +138,9 @@ type Runner struct {
 	lastPartComp uint64
 	lastPersists uint64
 
+	// KeepOpen: leave everything open after Run (debugging tools).
+	KeepOpen bool
+
 	// RaceReopen: do not wait for the closed instance's asynchronous file
 	// removals before reopening (C04 directed scenario).
 	RaceReopen bool
@@ -170,7 +176,9 @@ func (r *Runner) cnt(name string, n int) { r.Res.Counters[name] += int64(n) }
 
 // Run executes the program; it stops at the first violation.
 func (r *Runner) Run() *Result {
-	defer r.cleanup()
+	if !r.KeepOpen {
+		defer r.cleanup()
+	}
 	if err := r.E.Open(); err != nil {
 		if strings.HasPrefix(err.Error(), "watchdog") {
 			r.Res.Inconclusive = err.Error()
@@ -196,7 +204,7 @@ func (r *Runner) Run() *Result {
 			break
 		}
 	}
-	if len(r.Res.Violations) == 0 && r.Res.Inconclusive == "" {
+	if len(r.Res.Violations) == 0 && r.Res.Inconclusive == "" && !r.KeepOpen {
 		r.finish()
 	}
 	return r.Res
@@ -339,6 +347,26 @@ func (r *Runner) doStep(st Step) bool {
 			}
 		}
 	case "check":
+	case "lowerfinal":
+		if e.Lower == nil || e.Coll == nil {
+			return true
+		}
+		r.checkLower()
+		if len(r.Res.Violations) == 0 && r.lowerK != e.World.N() {
+			r.viol("lower", "lower-not-caught-up-after-drain", "", fmt.Sprintf("after draining (6 directed merger+persister iterations) the lower level is at prefix %d of %d", r.lowerK, e.World.N()))
+			return false
+		}
+		r.cnt("lower.final_checks", 1)
+	case "gaugesfinal":
+		if e.Coll == nil || e.Cfg.Backing == "none" {
+			return true
+		}
+		stt, err := e.Coll.Stats()
+		if err == nil && (stt.CurDirtyOps != 0 || stt.CurDirtyBytes != 0 || stt.CurDirtySegments != 0) {
+			r.viol("gauges", "gauges-stuck-nonzero", "", fmt.Sprintf("after draining, CurDirtyOps=%d CurDirtyBytes=%d CurDirtySegments=%d", stt.CurDirtyOps, stt.CurDirtyBytes, stt.CurDirtySegments))
+			return false
+		}
+		r.cnt("gauges.final_checks", 1)
 	default:
 		r.viol("harness", "unknown-step", st.K, "")
 		return false
@@ -1132,6 +1160,7 @@ func (r *Runner) checkGauges(st Step) {
 		return
 	}
 	r.cnt("gauges.zero_samples", 1)
+	r.Res.Nontrivial["zero|"+r.P.Cfg.Class()+"|"+e.Shape().String()+"|"+e.D.Parked("merger")+"+"+e.D.Parked("persister")]++
 	lastChildOnly := false
 	for i := r.step; i >= 0; i-- {
 		if r.P.Steps[i].K == "batch" {
@@ -1288,7 +1317,7 @@ func (r *Runner) reopen(kind string) bool {
 	}
 	// File removal is asynchronous: let pending unlinks of the closed
 	// instance finish so that the reopen sees a settled directory.
-	if !r.RaceReopen && !WaitQuiescent(e.D.Watchdog) {
+	if !r.RaceReopen && !r.P.RaceReopen && !WaitQuiescent(e.D.Watchdog) {
 		return r.watchdog("pending file removals before reopen")
 	}
 	if err := e.Open(); err != nil {
